@@ -385,37 +385,82 @@ theorem inv_apply (p : Params) (st : State) (r : Rec) (hi : Inv p st) (hv : verd
     | none => simp [hold] at hv
     | some b0 =>
       simp only [hold] at hv
-      by_cases h1 : read < st.now
-      · simp [h1] at hv
-      · by_cases h2 : out ≠ pred p.cal b0.cfg read
-        · simp [h1, h2] at hv
-        · have h2' : out = pred p.cal b0.cfg read := by simpa using h2
-          refine ⟨?_, ?_, ?_, ?_⟩
-          · intro k b hb
-            simp only [apply, hold, update] at hb
-            by_cases hk : k = blk
-            · simp only [hk, ↓reduceIte, Option.some.injEq] at hb
-              subst hb; exact h2'
-            · simp only [hk, ↓reduceIte] at hb
-              exact hi.out_ok k b hb
-          · intro k b hb
-            simp only [apply, hold, update] at hb ⊢
-            by_cases hk : k = blk
-            · simp only [hk, ↓reduceIte, Option.some.injEq] at hb
-              subst hb; exact Nat.le_refl _
-            · simp only [hk, ↓reduceIte] at hb
-              have := hi.last_le k b hb
-              omega
-          · intro k b dl hb hs
-            simp only [apply, hold, update] at hb ⊢
-            by_cases hk : k = blk
-            · simp only [hk, ↓reduceIte, Option.some.injEq] at hb
-              subst hb
-              simp at hs
-            · simp only [hk, ↓reduceIte] at hb
-              exact hi.dl_le k b dl hb hs
-          · have := hi.grace_le
-            simp only [apply, hold]; omega
+      by_cases h2 : out ≠ pred p.cal b0.cfg read
+      · simp [h2] at hv
+      have h2' : out = pred p.cal b0.cfg read := by simpa using h2
+      have hb0 := hi.last_le blk b0 hold
+      have hg := hi.grace_le
+      by_cases h1 : read < b0.last
+      · -- an older reading: only the output is rewritten, with the value of the latest reading
+        by_cases h3 : out ≠ pred p.cal b0.cfg b0.last
+        · simp [h2, h1, h3] at hv
+        have h3' : out = pred p.cal b0.cfg b0.last := by simpa using h3
+        refine ⟨?_, ?_, ?_, ?_⟩
+        · intro k b hb
+          simp only [apply, hold, update, recalcBlock, h1, ↓reduceIte] at hb
+          by_cases hk : k = blk
+          · simp only [hk, ↓reduceIte, Option.some.injEq] at hb
+            subst hb; exact h3'
+          · simp only [hk, ↓reduceIte] at hb
+            exact hi.out_ok k b hb
+        · intro k b hb
+          simp only [apply, hold, update, recalcBlock, h1, ↓reduceIte] at hb ⊢
+          by_cases hk : k = blk
+          · simp only [hk, ↓reduceIte, Option.some.injEq] at hb
+            subst hb
+            by_cases hn : st.now ≤ read
+            · simp only [hn, ↓reduceIte]; omega
+            · simp only [hn, ↓reduceIte]; exact hb0
+          · simp only [hk, ↓reduceIte] at hb
+            have := hi.last_le k b hb
+            by_cases hn : st.now ≤ read
+            · simp only [hn, ↓reduceIte]; omega
+            · simp only [hn, ↓reduceIte]; exact this
+        · intro k b dl hb hs
+          simp only [apply, hold, update, recalcBlock, h1, ↓reduceIte] at hb ⊢
+          by_cases hk : k = blk
+          · simp only [hk, ↓reduceIte, Option.some.injEq] at hb
+            subst hb
+            exact hi.dl_le blk b0 dl hold hs
+          · simp only [hk, ↓reduceIte] at hb
+            exact hi.dl_le k b dl hb hs
+        · simp only [apply, hold]
+          by_cases hn : st.now ≤ read
+          · simp only [hn, ↓reduceIte]; omega
+          · simp only [hn, ↓reduceIte]; exact hg
+      · refine ⟨?_, ?_, ?_, ?_⟩
+        · intro k b hb
+          simp only [apply, hold, update, recalcBlock, h1, ↓reduceIte] at hb
+          by_cases hk : k = blk
+          · simp only [hk, ↓reduceIte, Option.some.injEq] at hb
+            subst hb; exact h2'
+          · simp only [hk, ↓reduceIte] at hb
+            exact hi.out_ok k b hb
+        · intro k b hb
+          simp only [apply, hold, update, recalcBlock, h1, ↓reduceIte] at hb ⊢
+          by_cases hk : k = blk
+          · simp only [hk, ↓reduceIte, Option.some.injEq] at hb
+            subst hb
+            by_cases hn : st.now ≤ read
+            · simp only [hn, ↓reduceIte]; exact Nat.le_refl _
+            · simp only [hn, ↓reduceIte]; omega
+          · simp only [hk, ↓reduceIte] at hb
+            have := hi.last_le k b hb
+            by_cases hn : st.now ≤ read
+            · simp only [hn, ↓reduceIte]; omega
+            · simp only [hn, ↓reduceIte]; exact this
+        · intro k b dl hb hs
+          simp only [apply, hold, update, recalcBlock, h1, ↓reduceIte] at hb ⊢
+          by_cases hk : k = blk
+          · simp only [hk, ↓reduceIte, Option.some.injEq] at hb
+            subst hb
+            simp at hs
+          · simp only [hk, ↓reduceIte] at hb
+            exact hi.dl_le k b dl hb hs
+        · simp only [apply, hold]
+          by_cases hn : st.now ≤ read
+          · simp only [hn, ↓reduceIte]; omega
+          · simp only [hn, ↓reduceIte]; exact hg
   | jump t delta =>
     simp only [verdict] at hv
     by_cases h1 : t < st.now
